@@ -198,6 +198,13 @@ def cases(tier, seed):
         specs = specs[::3]
     for i in range(0, len(specs), 16):
         out.append({'k': 'graphs', 'specs': specs[i:i + 16]})
+    import itertools
+    n = len(MIXED_CFGS)
+    for a, b in itertools.product(range(n), repeat=2):
+        out.append({'k': 'mixed', 'cfgs': [a, b]})
+    for a, b, c in itertools.product(range(n), repeat=3):
+        if tier != 'quick' or (a + b + c) % 3 == 0:
+            out.append({'k': 'mixed', 'cfgs': [a, b, c]})
     return out
 
 
@@ -257,7 +264,102 @@ def snap_sig(snap):
     return tuple(tuple(sorted((v.name, sig(v.vid)) for v in fr.variables)) for fr in snap.frames[:1]) + (len(table),)
 
 
+MIXED_SRC = '''
+def inner(n):
+    mine = [n, n + 1]
+    label = 'in%d' % n
+    return len(mine)
+def middle(n):
+    held = {'k': n, 'items': [n] * 3}
+    r = inner(n + 1)
+    return r
+def outer():
+    top = ('t', 1)
+    return middle(5)
+'''
+MIXED_LINE = MIXED_SRC.split('\n').index('    return len(mine)') + 1
+MIXED_CFGS = [{'frame_type': 'single_frame'}, {'frame_type': 'all_frame'}, {'frame_type': 'no_frame'},
+              {'frame_type': 'all_frame', 'MAX_COLLECTION_SIZE': 1}, {'frame_type': 'all_frame', 'watches': ['mine', 'n + 1']},
+              {'frame_type': 'single_frame', 'MAX_VAR_DEPTH': 2}]
+
+
+def full_sig(snap):
+    """Signature over ALL frames: per frame its variables (by name) with their structure; plus closure problems."""
+    table = snap.var_lookup
+
+    def sig(vid, depth=0):
+        var = table.get(vid)
+        if var is None:
+            return ('dangling',)
+        if depth > 4:
+            return (var.type,)
+        return (var.type, var.value, tuple(sorted((str(c.name), sig(c.vid, depth + 1)) for c in var.children)))
+    # program frames only: the thread bootstrap frames below them hold per-run values (idents, lock addresses)
+    frames = tuple((f.method_name, f.line_number, tuple(sorted((v.name, sig(v.vid)) for v in f.variables)))
+                   for f in snap.frames if f.method_name in ('inner', 'middle', 'outer'))
+    watches = tuple((w.expression, w.error, sig(w.result.vid) if w.result is not None else None) for w in snap.watches)
+    return frames, watches, tuple(snapref.closure_problems(snap))
+
+
+def mixed_run(cfgs):
+    from deep.api.tracepoint.trigger import Trigger, LineLocation, Location, LocationAction
+    ns, path = rig.load_program('c06mixed', MIXED_SRC, 'snap')
+    agent = rig.Agent(plugins=[])
+    trigs = []
+    for i, cfg in enumerate(cfgs):
+        c = {'watches': [], 'fire_count': '-1', 'fire_period': '0'}
+        c.update(cfg)
+        trigs.append(Trigger(LineLocation('c06mixed.py', MIXED_LINE, Location.Position.START),
+                             [LocationAction('tp%d' % i, None, c, LocationAction.ActionType.Snapshot)]))
+    agent.install(trigs)
+    with rig.VirtualClock():
+        run = Forwarder({path}, agent.handler).call_thread(ns['outer'])
+    return agent, run
+
+
+def case_mixed(ctx, desc):
+    """Tracepoints with DIFFERENT settings on one line, several frames deep: each snapshot must equal the one its
+    tracepoint produces alone (caller frames included) and share no frame / variable-list object with the others."""
+    cfgs = [MIXED_CFGS[i] for i in desc['cfgs']]
+    ctx.case()
+    refs = []
+    for c in cfgs:
+        a, r = mixed_run([c])
+        if len(a.snapshots) != 1:
+            ctx.violation('C06/mixed/reference-run', f'single tracepoint {c}: {len(a.snapshots)} snapshots', desc)
+            return
+        refs.append(full_sig(a.snapshots[0]))
+    agent, run = mixed_run(cfgs)
+    ctx.nt(('mixed', tuple(desc['cfgs'])))
+    if run.escaped or len(agent.snapshots) != len(cfgs):
+        ctx.violation('C06/mixed/snapshot-count', f'{len(cfgs)} tracepoints {cfgs} on one line: {len(agent.snapshots)} snapshots', desc)
+        return
+    snaps = sorted(agent.snapshots, key=lambda s_: s_.tracepoint.id)
+    for i, (s_, ref) in enumerate(zip(snaps, refs)):
+        got = full_sig(s_)
+        if got != ref:
+            what = 'dangling-references' if got[2] else 'caller-frames' if got[0][0] == ref[0][0] else 'top-frame'
+            ctx.violation(f'C06/mixed/snapshot-differs-from-single/{what}', f'tracepoints {cfgs} on one line: snapshot of #{i} ({cfgs[i]}) differs from the one it produces alone '
+                                                                          f'(frames with variables: {[(f[0], len(f[2])) for f in got[0][:4]]} vs {[(f[0], len(f[2])) for f in ref[0][:4]]}; '
+                                                                          f'unresolved: {got[2][:2]})', desc)
+            return
+    for i in range(len(snaps)):
+        for j in range(i + 1, len(snaps)):
+            for fa_, fb_ in zip(snaps[i].frames, snaps[j].frames):
+                if fa_ is fb_ or (fa_.variables is fb_.variables and fa_.variables):
+                    ctx.violation('C06/mixed/shared-frame-object', f'tracepoints {cfgs}: snapshots #{i} and #{j} share a StackFrame / variable list object ({fa_.method_name})', desc)
+                    return
+            for vid, var in snaps[i].var_lookup.items():
+                other = snaps[j].var_lookup.get(vid)
+                if other is var or (other is not None and other.children is var.children and var.children):
+                    ctx.violation('C06/mixed/shared-variable-object', f'tracepoints {cfgs}: snapshots #{i} and #{j} share a Variable / children list object', desc)
+                    return
+    ctx.outcome(('mixed', tuple(desc['cfgs'])))
+
+
 def run_case(ctx, desc):
+    if desc['k'] == 'mixed':
+        return case_mixed(ctx, desc)
     if desc['k'] == 'graphs':
         for spec in desc['specs']:
             for n in (2, 3):
